@@ -41,6 +41,58 @@ func specExists(lo, hi int, f func(k int) bool) bool {
 	return false
 }
 
+// specSameFormat: the literal text after the last verb-free prefix of the format occurs in s
+func specSameFormat(s, format string) bool {
+	lit := format
+	for {
+		i := strings.Index(lit, "%")
+		if i < 0 {
+			break
+		}
+		rest := lit[i+2:]
+		if j := strings.Index(rest, "%"); j >= 0 {
+			if j > 2 {
+				return strings.Contains(s, rest[:j])
+			}
+			lit = rest
+			continue
+		}
+		if len(rest) > 0 {
+			return strings.Contains(s, rest)
+		}
+		break
+	}
+	return true
+}
+
+func specEqv(a, b any) bool {
+	bs := func(x any) ([]byte, bool) {
+		v := reflect.ValueOf(x)
+		switch v.Kind() {
+		case reflect.String:
+			return []byte(v.String()), true
+		case reflect.Slice:
+			if v.Type().Elem().Kind() == reflect.Uint8 {
+				return v.Bytes(), true
+			}
+		}
+		return nil, false
+	}
+	if x, ok := bs(a); ok {
+		if y, ok := bs(b); ok {
+			return string(x) == string(y)
+		}
+	}
+	va, vb := reflect.ValueOf(a), reflect.ValueOf(b)
+	if va.IsValid() && vb.IsValid() && va.CanInt() && vb.CanInt() {
+		return va.Int() == vb.Int()
+	}
+	if va.IsValid() && vb.IsValid() && va.CanUint() && vb.CanUint() {
+		return va.Uint() == vb.Uint()
+	}
+	return reflect.DeepEqual(a, b)
+}
+
 func specAt[S ~[]E, E any](s S, i int) E {
 	var z E
 	if i < 0 || i >= len(s) {
@@ -113,7 +165,7 @@ func (c *goCtx) expr(n *Node) string {
 			s := c.expr(args[0])
 			c.old = save
 			return s
-		case "fresh", "allocated", "disjoint":
+		case "fresh", "allocated", "disjoint", "separate":
 			return "true"
 		case "ival", "base":
 			return c.fail(name + "()")
@@ -134,6 +186,15 @@ func (c *goCtx) expr(n *Node) string {
 		var as []string
 		for _, a := range args {
 			as = append(as, c.expr(a))
+		}
+		if name == "sameFormat" && len(as) == 2 {
+			return "specSameFormat(" + as[0] + ", " + as[1] + ")"
+		}
+		if name == "eqv" && len(as) == 2 {
+			return "specEqv(" + as[0] + ", " + as[1] + ")"
+		}
+		if fn.Kind == "sel" {
+			return c.expr(fn) + "(" + strings.Join(as, ", ") + ")"
 		}
 		if name == "" {
 			return typeText(fn) + "(" + strings.Join(as, ", ") + ")"
